@@ -85,6 +85,13 @@ func runVote(ctx *action.Context, tx action.RawTx) (bool, action.Response) {
 		}
 	}
 
+	// An opinion outside the enumeration would index past the tally's power table
+	if err = vote.Opinion.Err(); err != nil {
+		return false, action.Response{
+			Log: gov.ErrInvalidVoteOpinion.Wrap(err).Marshal(),
+		}
+	}
+
 	// Get Proposal from proposal ACTIVE store
 	pms := ctx.ProposalMasterStore
 	proposal, err := pms.Proposal.WithPrefixType(gov.ProposalStateActive).Get(vote.ProposalID)
